@@ -98,6 +98,7 @@ def compute_key_requires(E, ctx):
 def register(reg):
     _register_nodes(reg)
     _register_store(reg)
+    _register_read(reg)
 
 
 def _register_nodes(reg):
@@ -173,3 +174,160 @@ def _register_store(reg):
     g = "hexary_store"
     reg.add(g, Contract(HEX + ":HexaryTrie.get_node", ["self", "node_hash"], get_node_cases, setup=ref_value_setup,
                         requires=get_node_requires, props=("C01", "C07", "C08")))
+
+
+# ---------------------------------------------------------------------------------------------------
+# read path
+
+def read_trie(E):
+    t = HM.mk_trie(E)
+    E.ghost["read_only"] = True           # no unit of the read path writes a node list
+    return t
+
+
+def partial_cls(E):
+    return E.loader.load(HEX).ns["_PartialTraversal"]
+
+
+def mtn_cls(E):
+    return objs.exc(E, "MissingTraversalNode")
+
+
+def ext_setup(E):
+    t = read_trie(E)
+    D = z3.Const("ext.D", HNode)
+    E.assume(mk_bool(z3.And(HNode.is_HExt(D), HM.hwfp(D))))
+    HM.unfold_wf(E, D)
+    node = HM.materialize(E, D)
+    key = HM.nibs(E, "trie_key")
+    return {"self": t, "node": node, "trie_key": key}
+
+
+def ext_cases(E, ctx):
+    node = ctx.node
+    P, _f = HM.hpk_parts(HM.bytes_of(node.items[0]))
+    K = ops.seq_term_as(ctx.trie_key, "int")
+    through = z3.PrefixOf(P, K)
+    partial = z3.And(z3.Not(through), z3.PrefixOf(K, P))
+    child_val = ctx.old_items(node)[0][1]
+    return [Case("through", when=mk_bool(through),
+                 returns=lambda: (Is(child_val), SSeq(HM.tail(K, z3.Length(P)), "tuple", "int", rng=(0, 15)))),
+            Case("partial", when=mk_bool(partial), raises=partial_cls(E)),
+            Case("diverges", when=mk_bool(z3.And(z3.Not(through), z3.Not(partial))), returns=lambda: (b"", ()))]
+
+
+def tf_setup(E):
+    t = read_trie(E)
+    D0 = z3.Const("node0.D", HNode)
+    E.assume(mk_bool(HM.hwfp(D0)))
+    HM.unfold_wf(E, D0)
+    node = HM.materialize(E, D0)
+    key = HM.nibs(E, "trie_key")
+    ks = HM.nibs(E, "ks")                 # ghost suffix: the view equation is proved for an arbitrary continuation
+    E.ghost["ks"] = ks.t
+    E.ghost["D0"] = D0
+    return {"self": t, "node": node, "trie_key": key}
+
+
+def view_eq(E, n_val, rem, D0, K, ks):
+    return HM.hlk(HM.alpha(n_val), z3.Concat(rem, ks)) == HM.hlk(D0, z3.Concat(K, ks))
+
+
+def suffix_of(rem, K):
+    return z3.And(z3.Length(rem) <= z3.Length(K), HM.tail(K, z3.Length(K) - z3.Length(rem)) == rem)
+
+
+def tf_inv(E, fr, _i):
+    node = fr.locals["node"]
+    rem = ops.seq_term_as(fr.locals["remaining_key"], "int")
+    K = ops.seq_term_as(fr.locals["trie_key"], "int")
+    D0, ks = E.ghost["D0"], E.ghost["ks"]
+    Dn = HM.alpha(node)
+    HM.unfold_wf(E, Dn)
+    return [("view", mk_bool(view_eq(E, node, rem, D0, K, ks))),
+            ("remaining-is-a-suffix", mk_bool(suffix_of(rem, K))),
+            ("node-well-formed", mk_bool(HM.hwfp(Dn)))]
+
+
+def fresh_loop_node(E):
+    D = z3.Const(E.fresh_name("node.D"), HNode)
+    return HM.materialize(E, D)
+
+
+def tf_cases(E, ctx):
+    K = ops.seq_term_as(ctx.trie_key, "int")
+    unit_mode = hasattr(ctx, "outcome")
+    if unit_mode:
+        D0, ks = E.ghost["D0"], E.ghost["ks"]
+    else:
+        D0 = HM.alpha(ctx.node)
+        ks = None
+
+    def ens(res):
+        n, rem = res
+        rt = ops.seq_term_as(rem, "int")
+        Dn = HM.alpha(n)
+        shape = z3.Implies(z3.Length(rt) > 0,
+                           z3.Or(z3.And(HNode.is_HLeaf(Dn), z3.PrefixOf(rt, HNode.lpath(Dn))),
+                                 z3.And(HNode.is_HExt(Dn), z3.PrefixOf(rt, HNode.epath(Dn)), rt != HNode.epath(Dn))))
+        out = [("remaining-is-a-suffix", mk_bool(suffix_of(rt, K))), ("stops-only-inside-a-path", mk_bool(shape)),
+               ("node-well-formed", mk_bool(HM.hwfp(Dn)))]
+        if unit_mode:
+            _step_facts(E, n, rt, ks)
+            out.insert(0, ("view", mk_bool(view_eq(E, n, rt, D0, K, ks))))
+        return out
+
+    def make():
+        # callee view: a fresh node and remainder related to the argument by the view equation (for every
+        # continuation ks; recorded as a rule and instantiated where it is needed)
+        Dn = z3.Const(E.fresh_name("tf.D"), HNode)
+        n = HM.materialize(E, Dn)
+        rem = HM.nibs(E, "tf.rem")
+        E.ghost.setdefault("hview_rules", []).append((n, rem.t, D0, K))
+        return (n, rem)
+    return [Case("reached", ensures=ens, make=None if unit_mode else make),
+            Case("missing-node", raises=mtn_cls(E),
+                 exc=lambda e: [("hash-is-absent", mk_bool(z3.Not(z3.Select(ctx.old_has(ctx.self.fields["db"]), HM.bytes_of(e.args[0])))))
+                                if e.args else ("hash-is-absent", False)])]
+
+
+def _step_facts(E, node, rem, ks):
+    """lemma instances and unfoldings for one step of the walk from `node` along rem ++ ks"""
+    from contracts import seqlemmas as SL
+    D = HM.alpha(node)
+    k = z3.simplify(z3.Concat(rem, ks))
+    HM.unfold_hlk(E, D, k)
+    HM.unfold_wf(E, D)
+    SL.use(E, "nth_concat", rem, ks)
+    SL.use(E, "tail_concat", rem, ks, z3.IntVal(1))
+    if isinstance(node, ListObj) and len(node.items) == 2:
+        P, f = HM.hpk_parts(HM.bytes_of(node.items[0]))
+        SL.use(E, "tail_concat", rem, ks, z3.Length(P))
+        SL.use(E, "prefix_concat_left", P, rem, ks)
+        SL.use(E, "eq_concat_prefix", rem, ks, P)
+        SL.use(E, "proper_prefix_blocks", rem, ks, P)
+        SL.use(E, "prefix_is_slice", P, rem)
+
+
+def tf_body_hook(E, fr):
+    """facts added at the head of every iteration of the walk (unit mode): the step lemmas for the current node"""
+    node = fr.locals["node"]
+    rem = ops.seq_term_as(fr.locals["remaining_key"], "int")
+    _step_facts(E, node, rem, E.ghost["ks"])
+
+
+def _register_read(reg):
+    g = "hexary_read"
+    H = HEX + ":HexaryTrie."
+    reg.add(g, Contract(H + "_traverse_extension", ["self", "node", "trie_key"], ext_cases, setup=ext_setup,
+                        props=("C01", "C08")))
+
+    def inv_with_facts(E, fr, i):
+        if "remaining_key" in fr.locals and isinstance(fr.locals.get("node"), (ListObj, bytes)):
+            tf_body_hook(E, fr)
+        return tf_inv(E, fr, i)
+    reg.add(g, Contract(H + "_traverse_from", ["self", "node", "trie_key"], tf_cases, setup=tf_setup,
+                        props=("C01", "C07", "C08"),
+                        loops={0: LoopSpec(inv_with_facts, fresh={"node": fresh_loop_node,
+                                                                    "next_node_pointer": "unbound", "node_type": "unbound",
+                                                                    "leaf_key": "unbound", "used_key": "unbound"})}))
